@@ -61,7 +61,8 @@ pub(crate) trait RowPrinter {
 
 impl<T: RowPrinter> AggregatePrinter for PrintAggregateAsRows<T> {
     fn print(&mut self, _row: &Aggregate, _display_config: &DisplayConfig) -> String {
-        "data will be output once the computation is complete...".to_string()
+        // a whole line, like every other frame: the renderer erases the previous frame line by line
+        "data will be output once the computation is complete...\n".to_string()
     }
 
     fn final_print(&mut self, row: &Aggregate, display_config: &DisplayConfig) -> String {
